@@ -656,6 +656,13 @@ func TestReplay(t *testing.T) {
 			}
 			return checkSweep(c)
 		},
+		"TestC02Resolve": func(raw json.RawMessage) error {
+			var c resolveCase
+			if err := json.Unmarshal(raw, &c); err != nil {
+				return err
+			}
+			return checkResolve(c)
+		},
 		"TestC02BulkRangeDelete": func(raw json.RawMessage) error {
 			var c bulkCase
 			if err := json.Unmarshal(raw, &c); err != nil {
